@@ -884,9 +884,22 @@ impl Gen {
     }
 
     pub fn generate(mut self, cfg_for_reopen: impl Fn(&mut Rng) -> Cfg) -> Vec<Event> {
-        // warm-up: two committed transactions before any session begins (finding D26)
+        // every history starts with a table and a few rows. (Until finding D26 was repaired no session
+        // began before these two commits; now one history in six opens a session before the CREATE
+        // TABLE - while nothing has committed yet - and one in six between the CREATE and the INSERT.)
+        let early = self.rng.below(6);
+        if early == 0 && self.p.max_sessions > 0 {
+            let k = self.next_sess;
+            self.next_sess += 1;
+            self.emit(Event::Begin(k));
+        }
         let t0 = self.table_def();
         self.emit(Event::Auto(t0));
+        if early == 1 && self.p.max_sessions > 0 {
+            let k = self.next_sess;
+            self.next_sess += 1;
+            self.emit(Event::Begin(k));
+        }
         if self.p.has("uncheckpointed_create_with_open_txn") {
             self.emit(Event::Flush);
         }
